@@ -1,5 +1,6 @@
 import OrdModel.Proofs.IndexInslocReveal
 import OrdModel.Proofs.IndexLiftSatC03
+import OrdModel.Proofs.IndexLiftOnSatTx
 /-!
 # C03 — Inscriptions move with the sat they were inscribed on
 
@@ -301,5 +302,42 @@ example : exResult.isOk = true ∧ exCheck = true := ⟨exResult_ok, exCheck_tru
 
 example : revealOffset { (default : Envelope) with pointer := some 700 } 5 900 = 700 ∧
     revealOffset { (default : Envelope) with pointer := some 900 } 5 900 = 5 := by decide
+
+/-! ## The offset-tracking lift (Proofs/IndexLiftOnSat*.lean)
+
+`OnSat` as a per-entry predicate: `OnSatLift.EntSat E e` — every `(seq, off)` listed by the UTXO
+entry `e` names an existing inscription entry of `E`, and if that inscription is bound to a sat
+`s`, the `off`-th sat of `e`'s ranges is `s`.  The mid-block invariant `OnSatLift.BMid NOld bc`
+says this of every table row and every cache row, says that the flotsam saved for the coinbase
+points at its sats in the ranges queued for the coinbase (whose size is the running reward), that
+the pending null entry is on its sats in `NOld ++ lost ranges` (`NOld` = ranges stored under the
+null outpoint, of size `lostSats`) and that the pending unbound entry lists unbound inscriptions
+only. -/
+
+open OnSatLift in
+/-- **Stage (a): one transaction of `index_utxo_entries` keeps every inscription on its sat.**
+A transaction that is not the block's first (non-zero txid, no special outpoint among its inputs;
+sat index and inscription pass on) preserves the mid-block invariant: spent entries' inscriptions
+float at `input start + offset`, the output loop puts them where the FIFO equation puts their
+sats, what falls off the end is saved at `reward + k − Σ outputs`, and the new cache rows are on
+their sats.  The inscription table only grows and entries keep their sat. -/
+theorem c03_tx_step (cfg : Cfg) (hs : cfg.indexSats = true) (blk : Block) (i : Nat) (hi : i ≠ 0)
+    (tx : Tx) (bc bc' : BlockCtx) (NOld : List (Nat × Nat))
+    (h0 : tx.txid ≠ 0) (hsp : ∀ x ∈ tx.inputs, x.prev.isSpecial = false)
+    (hinv : BMid NOld bc) (h : indexTx cfg blk true i tx bc = .ok bc') :
+    BMid NOld bc' ∧ EntExt bc.st.entries bc'.st.entries :=
+  indexTx_noncb_step cfg hs blk i hi tx bc bc' NOld h0 hsp hinv h
+
+open OnSatLift in
+/-- **Stage (a), coinbase**: the block's first transaction (first input null, indexed last with
+the queued ranges as its inputs) places the scanned and the saved flotsam on its outputs or — past
+its outputs — at the null outpoint at `lostSats + k − Σ outputs`, every one on its sat; the result
+is what the block-end flush needs (`BEnd`). -/
+theorem c03_coinbase_step (cfg : Cfg) (hs : cfg.indexSats = true) (blk : Block)
+    (tx : Tx) (bc bc' : BlockCtx) (NOld : List (Nat × Nat))
+    (h0 : tx.txid ≠ 0) (hcb : txIsCoinbase tx = true)
+    (hinv : BMid NOld bc) (h : indexTx cfg blk true 0 tx bc = .ok bc') :
+    BEnd NOld bc' ∧ EntExt bc.st.entries bc'.st.entries :=
+  indexTx_cb_step cfg hs blk tx bc bc' NOld h0 hcb hinv h
 
 end Ord.Index.Insloc
